@@ -287,6 +287,20 @@ impl Sub for Duration {
         rhs.normalize();
         match self.centuries.checked_sub(rhs.centuries) {
             None => {
+                if rhs.centuries < 0 {
+                    // Subtracting a negative duration overflowed toward the positive bound, unless the
+                    // nanoseconds borrow brings the result back in range.
+                    if i32::from(self.centuries) - i32::from(rhs.centuries)
+                        == i32::from(i16::MAX) + 1
+                        && self.nanoseconds <= rhs.nanoseconds
+                    {
+                        return Self::from_parts(
+                            i16::MAX,
+                            NANOSECONDS_PER_CENTURY - (rhs.nanoseconds - self.nanoseconds),
+                        );
+                    }
+                    return Self::MAX;
+                }
                 // Underflowed, so we've hit the min
                 return Self::MIN;
             }
